@@ -260,6 +260,10 @@ def step(rng, pa, mo, st):
         al = bool(rng.rand() < 0.7)
         uc = bool(rng.rand() < 0.5)
         pa.append_parray(other, align=al, update_constants=uc)
+        # the receiver's constants are its own: writing to the source's
+        # afterwards must not show in the receiver
+        for c_ in other.constants.values():
+            c_.get_npy_array()[:] = -77.0
         if k > 0:
             for name, v in om.props.items():
                 if name not in mo.props:
@@ -453,7 +457,21 @@ def step(rng, pa, mo, st):
         return 'align_particles(); set(%s=<%d real values>)' % (p, nreal), \
             True
     if op == 'clear_readd':
-        return None
+        if rng.rand() < 0.7:
+            return None
+        pa.clear()
+        mo.props = dict(Model().props)
+        mo.recs = []
+        if pa.num_real_particles != 0:
+            return 'clear(): num_real_particles is %d on an array with no ' \
+                'particles' % pa.num_real_particles, 'FAIL'
+        if dict(pa.stride):
+            return 'clear(): the stride table still holds %r' % (
+                dict(pa.stride),), 'FAIL'
+        # the walk tells particles apart by uid: put that column back
+        pa.add_property('uid', type='long', default=-1)
+        mo.props['uid'] = dict(type='long', stride=1, default=-1)
+        return 'clear(); add_property(uid)', False
     return None
 
 
